@@ -100,6 +100,7 @@ def run(tier: str, seed: int, rep: Report, model: Model) -> dict:
         dts += [("IntTensor", "torch", "i64", True), ("TensorTypeBase", "jax", "u8", True)]
     rep.rule = (f"all shape strings of <= {nd} dims over {DIMS} with at most one marker x all shapes over {{1,2,3}} of rank <= {maxrank} "
                 "(rank 0 included) x dtype in/out of the class; distinct = (string, shape, dtype); non-trivial = rank test passes")
+    rep.rule += '; plus literal axes and sizes of 256 / 257 / 1000 / 65536 (numpy, every shape of at most 2M elements)'
     rep.exhaustive = True
     tasks = []
     for dims in strings:
